@@ -422,6 +422,23 @@ pub fn sweep(values_per_type: usize) -> (Vec<IoPlan>, Vec<(String, usize)>) {
             }
         }
     }
+    // (h2) projective inputs whose Z has a special shape (G2: u, b·u, real, −1, 1+u, −u; G1: ±1·small):
+    // serialize must normalise them like any other Z
+    let b = plans.len();
+    for &ty in &[Ty::G1, Ty::G2] {
+        for &c in &[true, false] {
+            for z in 1..=6u64 {
+                for idx in [1usize, 12] {
+                    let mut v = val_for(ty, idx, z);
+                    if let VDesc::Pt { neg, .. } = &mut v {
+                        *neg = z % 2 == 0;
+                    }
+                    plans.push(single(ty, c, &v, "z_shape"));
+                }
+            }
+        }
+    }
+    dim("projective_z_shapes", b, &plans);
     // (i) history variants: the same single-fault cases, but after a successful round trip of the
     // intact record on the same stream (and, for writer faults, followed by a second record that
     // must be written correctly after the first write failed). A stateless implementation cannot
@@ -574,7 +591,7 @@ pub fn gen_plan(seed: u64) -> IoPlan {
             Ty::Fq12 => VDesc::Fq12(if rng.chance(1, 3) { format!("seed:{}", rng.next() % 100_000) } else { rng.pick(&p.fq12_vals).clone() }),
             _ => VDesc::Pt {
                 a: rng.pick(&p.pt_scalars).clone(),
-                z: if (ty == Ty::G1 || ty == Ty::G2) && rng.chance(2, 3) { 1 + rng.next() % 1000 } else { 0 },
+                z: if (ty == Ty::G1 || ty == Ty::G2) && rng.chance(2, 3) { if rng.chance(1, 4) { 1 + rng.next() % 6 } else { 7 + rng.next() % 1000 } } else { 0 },
                 neg: rng.chance(1, 4),
                 via: if rng.chance(1, 12) { 1 + (rng.next() % 2) as u8 } else { 0 },
             },
